@@ -51,18 +51,22 @@ func DateFromString(data string) (*Date, error) {
 		return nil, fmt.Errorf("Invalid date string: %s", data)
 	}
 
-	year, err := strconv.Atoi(parts[0])
+	year, err := strconv.ParseInt(parts[0], 10, 32)
 	if err != nil {
 		return nil, fmt.Errorf("Invalid date string: %s", data)
 	}
 
-	month, err := strconv.Atoi(parts[1])
+	month, err := strconv.ParseInt(parts[1], 10, 32)
 	if err != nil {
 		return nil, fmt.Errorf("Invalid date string: %s", data)
 	}
 
-	day, err := strconv.Atoi(parts[2])
+	day, err := strconv.ParseInt(parts[2], 10, 32)
 	if err != nil {
+		return nil, fmt.Errorf("Invalid date string: %s", data)
+	}
+
+	if month < 1 || month > 12 || day < 1 || day > int64(daysIn(int(year), time.Month(month))) {
 		return nil, fmt.Errorf("Invalid date string: %s", data)
 	}
 
@@ -73,6 +77,11 @@ func DateFromString(data string) (*Date, error) {
 	}
 
 	return dd, nil
+}
+
+// daysIn returns the number of days of the month in the (proleptic Gregorian) year.
+func daysIn(year int, month time.Month) int {
+	return time.Date(year, month+1, 0, 0, 0, 0, 0, time.UTC).Day()
 }
 
 // Equals returns true if the two dates are equal.
